@@ -314,9 +314,19 @@ impl Ep {
                         self.poll_all().await;
                     }
                 } else {
-                    // leave something genuine pending for A: one more user message
+                    // two user messages are on their way; the second has arrived, the first has not: A's SCTP holds an
+                    // out-of-order chunk in its receive queue and the first message is the pending genuine DATA
                     self.b.sctp.send_data(1, b"pending user message").await.map_err(|e| e.to_string())?;
                     self.collect().await;
+                    self.b.sctp.send_data(1, b"second user message, arrives first").await.map_err(|e| e.to_string())?;
+                    self.collect().await;
+                    if let Some(pos) = self.held.iter().rposition(|p| classify(p) == "sctp.data") {
+                        if self.held.iter().filter(|p| classify(p) == "sctp.data").count() >= 2 {
+                            let second = self.held.remove(pos).unwrap();
+                            let _ = self.inject.send(Bytes::from(second));
+                            self.poll_all().await;
+                        }
+                    }
                 }
                 self.phase = "est";
             }
@@ -393,6 +403,24 @@ impl Ep {
             }
             _ => return None,
         })
+    }
+
+    /// Current values of the sequence spaces: `tsn_in` = the cumulative TSN A has received from its peer (one below the
+    /// oldest DATA chunk that is still held back).
+    pub fn seq_base(&self, space: &str) -> Option<u64> {
+        match space {
+            "tsn_in" => {
+                let tsns: Vec<u32> = self
+                    .held
+                    .iter()
+                    .filter(|p| matches!(classify(p), "sctp.data" | "sctp.dcep_open") && p.len() >= 20)
+                    .map(|p| u32::from_be_bytes([p[16], p[17], p[18], p[19]]))
+                    .collect();
+                // the oldest one in serial-number order
+                tsns.iter().copied().find(|&t| tsns.iter().all(|&u| (u.wrapping_sub(t) as i32) >= 0)).map(|t| t.wrapping_sub(1) as u64)
+            }
+            _ => None,
+        }
     }
 
     /// Entry-specific repair after mutation: a packet with a wrong checksum never reaches the chunk walkers.
